@@ -261,6 +261,12 @@ def rule_C(run, prog):
                    message="vibronic couplings must be the resonance coupling times the overlap product; deviates on %d "
                            "of %d pairs of states of a trimer, first: %s" % (len(bad), npairs, bad[:1]), loc=c.loc(),
                    sample={"pairs": npairs})
+    bad, npairs, _ = c03.eval_coupling(prog, "VibronicState", 3, 1, full=True)
+    run.obligation(rid, "AggregateBase.coupling", not bad, key="coupling-times-overlap:full-model",
+                   message="with full=True (fem_full build) states two bands apart that differ by raising two "
+                           "molecules must be coupled by J times the overlap product; deviates on %d of %d pairs of "
+                           "states of a trimer, first: %s" % (len(bad), npairs, bad[:1]), loc=c.loc(),
+                   sample={"pairs": npairs, "full": True})
     # shift operator evaluated in the large basis and cut
     st = [norm(s) for s in ast.walk(f.node) if isinstance(s, ast.stmt)]
     ok = "fc = self.ops.shift_operator(shft)[:20, :20]" in st
